@@ -1,16 +1,19 @@
 mod ch;
 mod corpus;
 mod decode;
+mod dwarf;
 mod edits;
 mod gen;
 mod interp;
 mod iso;
 mod mutate;
+mod names;
 mod ops;
 mod optable;
 mod props;
 mod reach;
 mod run;
+mod spy;
 mod wal;
 
 use run::*;
@@ -142,6 +145,19 @@ fn main() {
             match props::c08::emit_hash(&bytes) {
                 Some(h) => println!("{}", h),
                 None => println!("none"),
+            }
+        }
+        Some("rt") => {
+            // rt <in.wasm> <out.wasm> [dwarf] [gc]
+            let path = args.get(2).cloned().unwrap_or_else(|| usage());
+            let outp = args.get(3).cloned().unwrap_or_else(|| usage());
+            let bytes = std::fs::read(path).unwrap();
+            let cfg = wal::Cfg { dwarf: args.iter().any(|a| a == "dwarf"), ..wal::Cfg::plain() };
+            let r = wal::roundtrip(&bytes, cfg, args.iter().any(|a| a == "gc"));
+            match r {
+                Ok(Some(b)) => std::fs::write(outp, b).unwrap(),
+                Ok(None) => println!("rejected"),
+                Err(f) => println!("{}: {}", f.signature, f.detail),
             }
         }
         Some("dbg-names") => {
